@@ -881,9 +881,13 @@ func l1Generate(c *lib.Ctx, rng *rand.Rand) []l1Scenario {
 	// numbers that are uploaded again with other content (an encoder that restarts, a re-encoded retry): shorter, longer,
 	// of equal length with other bytes; same time and duration. HEAD answers 200, replaces the file and keeps the
 	// first upload's entry in the track's buffer: the stored file must be the last accepted upload
-	for k := 0; k < 3*mult; k++ {
+	for k := 0; k < 5*mult; k++ {
 		keys := [][]string{{"v500", "a128"}, {"v500", "v800"}, {"v500"}}[k%3]
 		sc := l1Scenario{Kind: 4, Tracks: tracksOf(keys...), Tsbd: 60, Gen: "reupload-other-content"}
+		otherDur := k%5 >= 3 // the retry is a different cut of the stream: other duration as well
+		if otherDur {
+			sc.Gen = "reupload-other-duration"
+		}
 		const D = 36000
 		for i := range keys {
 			sc.Ups = append(sc.Ups, l1Up{Init: true, Track: i})
@@ -900,6 +904,9 @@ func l1Generate(c *lib.Ctx, rng *rand.Rand) []l1Scenario {
 					back := first + m - int64(rng.Intn(int(m)+1)) // this number or an earlier one again
 					v := rng.Intn(4)
 					ns2, sd2 := lay(v)
+					if otherDur {
+						ns2 = ns2 * (6 + rng.Intn(3)) / 10
+					}
 					sc.Ups = append(sc.Ups, l1Up{Track: t, Seq: back, T: back * D, Frags: 1, NS: ns2, SD: sd2, Lay: "trun", Salt: 1 + rng.Intn(60000)})
 				}
 			}
@@ -1226,6 +1233,9 @@ func l1Oracle(c *lib.Ctx, id string, sc l1Scenario, obs []l1Obs) {
 			// the start time of the stored segment is what its file says (a shifted channel rewrites it), the duration
 			// is the uploaded segment's
 			if _, dd := l1Truth(sc, u); true {
+				if was, ok := truth[sc.Tracks[u.Track].Name][nr]; ok && was != [2]int64{o.StoredT, dd} {
+					pre["reupload_other_timing"] = true // the file now holds a segment with another time or duration than the first upload of this number
+				}
 				truth[sc.Tracks[u.Track].Name][nr] = [2]int64{o.StoredT, dd}
 				if !sc.Shifted {
 					if td, _ := l1Truth(sc, u); td != o.StoredT {
